@@ -107,8 +107,29 @@ static void viol_value(fm_t* m, const char* mode, const char* field, const char*
 enum { BC_ZERO, BC_ONES, BC_55, BC_AA, BC_SAT, BC_CLR, BC_RANDOM, BC_NFIXED = BC_RANDOM };
 static const char* const bc_names[] = { "zero", "ones", "cb55", "cbaa", "field-saturated", "field-cleared", "random" };
 
+/* the format whose buffers are being made (set by the mode drivers): a quarter of the "random" buffers are headers as a talker
+ * would have built them - the canonical image with every other field at a small plausible value (1, 2, 3, 4, 6, 8, 16, 24, ...).
+ * Behaviour that is gated on "the header describes a consistent stream of kind X" (several selector fields at valid values at
+ * once) is practically never reached by random bytes */
+static const vp_format_t* g_bcfmt;
+static void talker_like(vp_rng_t* r, const vp_format_t* f, uint8_t* hdr, size_t n)
+{
+    static const uint16_t small[16] = { 0, 1, 2, 3, 4, 5, 6, 8, 12, 16, 24, 32, 48, 192, 1000, 1 };
+    size_t k = n < f->spec_bytes ? n : f->spec_bytes;
+    vp_rng_fill(r, hdr, n);
+    memcpy(hdr, f->image, k);
+    for (uint32_t i = 0; i < f->nfields; i++) {
+        const vp_field_t* fl = &f->fields[i];
+        if (fl->width == 0 || (size_t)(fl->pos + fl->width + 7) / 8 > k) continue;
+        uint64_t x = vp_rng_next(r);
+        if (bf_get(hdr, fl->pos, fl->width) != 0 && (x & 3)) continue;          /* what the initialiser stamps mostly stays */
+        bf_set(hdr, fl->pos, fl->width, fl->width > 32 ? x : (small[(x >> 8) & 15] & bf_mask(fl->width)));
+    }
+}
+
 static void make_buffer(vp_rng_t* r, uint32_t cls, uint8_t* hdr, size_t n, const vp_field_t* fld)
 {
+    if (cls >= BC_RANDOM && g_bcfmt && g_bcfmt->image && (vp_rng_next(r) & 3) == 0) { talker_like(r, g_bcfmt, hdr, n); return; }
     switch (cls) {
     case BC_ZERO: memset(hdr, 0, n); break;
     case BC_ONES: memset(hdr, 0xff, n); break;
@@ -1265,6 +1286,7 @@ static void mode_views(fm_t* m, fm_t* m2, const char* filter, uint64_t* nontrivi
                 if (pa == P_DEDICATED && !fa->dget) continue;
                 for (int pb = P_GENERIC; pb <= P_DEDICATED; pb++) {
                     if (pb == P_DEDICATED && !fb->dget) continue;
+                    g_bcfmt = (r & 1) ? A : B;
                     make_buffer(&c->rng, r < 6 ? (uint32_t)r : BC_RANDOM, hdr, n, fa);
                     fm_load(m, hdr, n); fm_load(m2, hdr, n);
                     m->f = A; m2->f = B;
@@ -1661,7 +1683,7 @@ int main(void)
         for (uint32_t fx = 0; fx < vp_nformats; fx++) {
             const vp_format_t* f = vp_formats[fx];
             if (!match_format(formats, f->id)) continue;
-            m.f = f;
+            m.f = f; g_bcfmt = f;
             uint64_t e0 = c->evals, nt0 = nontrivial;
             g_samples = (uint32_t)vp_cfg_u64("SAMPLES", 2);
             /* per-format PRNG stream so that results do not depend on which formats share a process */
